@@ -171,8 +171,8 @@ class LinearForm(_Form):
             # sum on gauss points
             values_e = (values_e_pg * dX_e_pg).integrate()
 
-            # add data
-            data[:, i] = values_e
+            # add data (the form may return a scalar or a 1-component vector)
+            data[:, i] = np.asarray(values_e).reshape(-1, 1)
 
         return data
 
@@ -196,8 +196,8 @@ class LinearForm(_Form):
 
         # get values
         values = self.Integrate_e(field=field).ravel()
-        rows = groupElem.Get_rows_e(dof_n).ravel()
-        columns = np.ones_like(rows)
+        rows = groupElem.Get_assembly_e(dof_n).ravel()
+        columns = np.zeros_like(rows)
 
         # get shape
         Ndof = groupElem.Ncoords * dof_n
